@@ -1,1 +1,14 @@
 import BddVerif.Props.C14
+#print axioms B.Props.C14.parse_total
+#print axioms B.Props.C14.tokenize_total
+#print axioms B.Props.C14.tokenize_consumes
+#print axioms B.Props.C14.parse_tokens_total
+#print axioms B.Props.C14.parse_tokens_iff_grammar
+#print axioms B.Props.C14.parse_iff_grammar
+#print axioms B.Props.C14.grammar_unambiguous
+#print axioms B.Props.C14.rejected_iff_not_grammar
+#print axioms B.Props.C14.print_parse_tokens
+#print axioms B.Props.C14.tokenize_display
+#print axioms B.Props.C14.print_parse
+#print axioms B.Props.C14.print_parse_needs_safe_names
+#print axioms B.Props.C14.special_chars_not_in_names
